@@ -1,6 +1,6 @@
 (* Property C04 — per-session counters (AEAD nonces) are never reused and never
    pass the limits.  Only statements, closed by `exact`, with Print Assumptions. *)
-From WG Require Import Base.Prelude Gen.Constants Nonce.Seq Nonce.Conc Nonce.Spec Nonce.Proofs Nonce.DupResp.
+From WG Require Import Base.Prelude Gen.Constants Nonce.Seq Nonce.Conc Nonce.Spec Nonce.Proofs Nonce.DupResp Nonce.Clamp.
 Local Open Scope N_scope.
 
 (* The numbers of the property text, as the code has them now. *)
@@ -143,6 +143,16 @@ Theorem C04_duplicate_response_at_most_one_session : forall (ck : N) (kdf : N ->
   (length (sessions (drun true ck kdf dinit2 sched)) <= 1)%nat.
 Proof. exact duplicate_response_at_most_one_session. Qed.
 Print Assumptions C04_duplicate_response_at_most_one_session.
+
+(* Why the clamp is a Store: in the same interleaving system with "take back my
+   own increment" (Add(-1)) instead of Store(Reject), one ExpireCurrentKeypairs
+   between a flusher's Add(1) and its decrement makes the last counter go out
+   twice (explicit schedule, two flushers). *)
+Theorem C04_clamp_by_decrement_refuted :
+  exists sched, let c := run_dec 2 (init (Reject - 1) (fun _ => 2%nat)) sched in
+    emitted c = [Reject - 1; Reject - 1].
+Proof. exact clamp_by_decrement_refuted. Qed.
+Print Assumptions C04_clamp_by_decrement_refuted.
 
 (* A stress trace accepted by the checker really has the property. *)
 Theorem C04_trace_checker_sound : forall ks, conc_holdsb ks = true ->
